@@ -16,6 +16,8 @@ CONSTANTS
   UnsetGuard = TRUE
   RemoveCancels = TRUE
   SharedGen = TRUE
+  EmitBeforeClose = TRUE
+  MaxHeld = 0
 INVARIANT TypeOK
 INVARIANT DistinctTickets
 INVARIANT RegistryExact
